@@ -348,6 +348,17 @@ def gen_model(rnd, opts=None):
     if not forced:
         rnd.shuffle(props)
     model = {"doms": doms, "idx": idx, "off": off, "props": props}
+    if rnd.random() < opts.get("shuffle_vars", 0.35) and len(idx) > 1:
+        # variables in another order than their shared domains: the variable -> shared-domain mapping is not the identity
+        # on any prefix (a variable index must never be usable as a shared-domain index)
+        nv = len(idx)
+        pv = list(range(nv))
+        rnd.shuffle(pv)
+        inv = {old: new for new, old in enumerate(pv)}
+        model = {"doms": doms, "idx": [idx[pv[k]] for k in range(nv)], "off": [off[pv[k]] for k in range(nv)],
+                 "props": [[[inv[v] for v in vs], name, p] for vs, name, p in props]}
+        idx, off = model["idx"], model["off"]
+        tags.add("variable_order_differs_from_domain_order")
     if any(a == b for a, b in doms):
         tags.add("singleton_domain")
     if any(a < 0 for a, b in doms):
@@ -384,6 +395,14 @@ def gen_costs(rnd, doms, ties=True, all_tied=False):
 
 def gen_config(rnd, model=None, cost=False):
     cfg = {"calg": rnd.choice(CALGS), "vh": rnd.choice(VHS), "dh": rnd.choice(DHS)}
+    if model is not None and len(model["doms"]) > 1 and rnd.random() < 0.3:
+        # every domain is still a decision domain, listed in another order (the magic-sequence example does that)
+        order = list(range(len(model["doms"])))
+        if rnd.random() < 0.4:
+            order.reverse()
+        else:
+            rnd.shuffle(order)
+        cfg["decision"] = order
     if cost and model is not None and all(a >= 0 for a, b in model["doms"]):
         r = rnd.random()
         if r < 0.5:
